@@ -1,6 +1,7 @@
 package harness
 
 import (
+	"strconv"
 	"fmt"
 	"strings"
 
@@ -249,6 +250,29 @@ func recKey(prod, port, cons, cport string) string {
 	return prod + "." + port + "->" + cons + "." + cport
 }
 
+// feedParams: FromStr, or - when every value is the canonical text of an int /
+// a float64 - the typed variants of the API.
+func feedParams(port *sp.InParamPort, vals []string) {
+	var ints []int
+	var floats []float64
+	for _, v := range vals {
+		if i, err := strconv.Atoi(v); err == nil && strconv.Itoa(i) == v {
+			ints = append(ints, i)
+		}
+		if f, err := strconv.ParseFloat(v, 64); err == nil && strconv.FormatFloat(f, 'f', -1, 64) == v {
+			floats = append(floats, f)
+		}
+	}
+	switch {
+	case len(vals) > 0 && len(ints) == len(vals):
+		port.FromInt(ints...)
+	case len(vals) > 0 && len(floats) == len(vals):
+		port.FromFloat(floats...)
+	default:
+		port.FromStr(vals...)
+	}
+}
+
 // miniWorkflow: a second Workflow object in the same program: a source with one
 // file, one shell-command process (two cores when there are at least two slots).
 func miniWorkflow(name string, slots int, inPath string, proc string) *sp.Workflow {
@@ -347,7 +371,7 @@ func Build(w *WF, rt *Runtime) *sp.Workflow {
 				}
 				if ps.From == nil || len(ps.Vals) > 0 {
 					// (both: the port is fed by an upstream process AND by FromStr)
-					p.InParam(ps.Name).FromStr(ps.Vals...)
+					feedParams(p.InParam(ps.Name), ps.Vals)
 				}
 			}
 		} else {
